@@ -8,6 +8,7 @@ package bounded
 
 import (
 	"fmt"
+	"strings"
 )
 
 // RefEnv says which terms variables denote.
@@ -274,4 +275,266 @@ func UsesUndef(t *Src) bool {
 		}
 	}
 	return false
+}
+
+// ---------------------------------------------------------------- reference evaluation along one path (sequences)
+
+// DTree is a source tree annotated from the compiled program: Fast marks the
+// operator nodes that FastEvaluation turned into two-leaf fast operators (the
+// single permitted difference of C03: both leaf operands are fetched together
+// and the operator is applied without short circuit).
+type DTree struct {
+	S       *Src
+	Fast    bool
+	Inlined bool // leaf operand of a fast operator (no loop iteration of its own)
+	Idx     int  // index of the node in the flat program
+	FiIdx   int  // if node: index of its fi marker
+	Kids    []*DTree
+}
+
+// AppRec is one operator application of the reference (for the event log).
+type AppRec struct {
+	Name string
+	Fast bool
+	Args []*T
+	V, E *T
+}
+
+// LoopRec is one LOOP event of the reference: the node about to be executed
+// and the operand stack at that moment.
+type LoopRec struct {
+	Idx   int
+	Stack []*T
+}
+
+// RefWalker evaluates LR over a tree under the decisions of one path: it
+// branches on the same canonical atoms as the real code does, so that on every
+// joint path both effect traces are concrete lists of call records.  It also
+// keeps the reference operand stack (values of evaluated siblings awaiting
+// their operator) for the LOOP events of C12.
+type RefWalker struct {
+	P      *Path
+	Oracle *Oracle
+	Trace  []TraceRec
+	Apps   []AppRec
+	Loops  []LoopRec
+	// Visited: node indices the REAL run reported LOOP events for. Two things are
+	// left to the compilation scheme and read from here rather than prescribed:
+	// whether the `fi` marker after a true branch is visited, and whether an
+	// and/or whose operands did not decide (all true / all false booleans) is
+	// applied as an operator or its last operand is taken as the result.
+	Visited map[int]bool
+	stack   []*T
+}
+
+func (w *RefWalker) loop(idx int) {
+	w.Loops = append(w.Loops, LoopRec{Idx: idx, Stack: append([]*T{}, w.stack...)})
+}
+
+// Eval returns the value and error terms of LR(t) on this path (v == nil: failed with e).
+func (w *RefWalker) Eval(t *DTree) (v, e *T) {
+	base := len(w.stack)
+	v, e = w.eval(t)
+	if v != nil {
+		w.stack = append(w.stack[:base], v)
+	}
+	return v, e
+}
+
+func (w *RefWalker) eval(t *DTree) (v, e *T) {
+	s := t.S
+	if s.IsLeaf() {
+		if !t.Inlined {
+			w.loop(t.Idx)
+		}
+		l := DecodeLeaf(s.Leaf, Consts)
+		if l.Kind != LVar {
+			return leafTerm(l), ENil
+		}
+		key := ExpectedKey(l.S)
+		gv, ge := w.Oracle.Get(key, l.S)
+		w.Trace = append(w.Trace, TraceRec{Kind: "get", Name: l.S, Key: key, V: gv, E: ge})
+		if !w.P.branch(IsENil(ge)) {
+			return nil, ge
+		}
+		return gv, ENil
+	}
+	if s.Op == "if" {
+		cv, ce := w.Eval(t.Kids[0])
+		if cv == nil {
+			return nil, ce
+		}
+		w.loop(t.Idx)
+		w.stack = w.stack[:len(w.stack)-1]
+		if !w.P.branch(Is("VBool", cv)) {
+			return nil, IfCondErr(cv)
+		}
+		if w.P.branch(BVal(cv)) {
+			v, e = w.Eval(t.Kids[1])
+			if v != nil && w.Visited[t.FiIdx] {
+				w.loop(t.FiIdx) // the fi marker after the true branch
+			}
+			return v, e
+		}
+		return w.Eval(t.Kids[2])
+	}
+	andor := (IsAndName(s.Op) || IsOrName(s.Op)) && !t.Fast
+	if t.Fast {
+		w.loop(t.Idx)
+	}
+	var args []*T
+	for _, k := range t.Kids {
+		kv, ke := w.Eval(k)
+		if kv == nil {
+			return nil, ke
+		}
+		if andor && w.P.branch(decides(s.Op, kv)) {
+			return kv, ENil
+		}
+		args = append(args, kv)
+	}
+	if andor && len(args) > 0 && !w.Visited[t.Idx] && w.P.branch(Is("VBool", args[len(args)-1])) {
+		// no operand decided and the last one is a boolean: it is the result; the operator is not applied
+		return args[len(args)-1], ENil
+	}
+	if !t.Fast {
+		w.loop(t.Idx)
+	}
+	var ov, oe *T
+	if Alpha.IsCustom(s.Op) {
+		ov, oe = CustomTerms(s.Op, args)
+		w.Trace = append(w.Trace, TraceRec{Kind: "call", Name: s.Op, Args: args, V: ov, E: oe})
+	} else {
+		ov, oe = OpTerm(s.Op, args)
+	}
+	w.Apps = append(w.Apps, AppRec{Name: s.Op, Fast: t.Fast, Args: args, V: ov, E: oe})
+	if !w.P.branch(IsENil(oe)) {
+		return nil, oe
+	}
+	return ov, ENil
+}
+
+// ProgTree reconstructs the tree of a flat program from its parent table (the
+// way Dump does, independently re-implemented) to learn which nodes are fast.
+func ProgTree(p *XProg) (*DTree, error) {
+	n := len(p.Nodes)
+	if n == 0 || len(p.Parent) != n {
+		return nil, fmt.Errorf("empty program or parent table of different length")
+	}
+	root := -1
+	for i, pi := range p.Parent {
+		if pi == -1 && p.Nodes[i].Flag&ntMask != ntEvent {
+			root = i
+		}
+	}
+	if root < 0 {
+		return nil, fmt.Errorf("no root")
+	}
+	kids := make([][]int, n)
+	for i, pi := range p.Parent {
+		if pi >= 0 && int(pi) < n && p.Nodes[i].Flag&ntMask != ntEvent {
+			kids[pi] = append(kids[pi], i)
+		}
+	}
+	var rec func(i, depth int) (*DTree, error)
+	rec = func(i, depth int) (*DTree, error) {
+		if depth > n {
+			return nil, fmt.Errorf("parent table is cyclic")
+		}
+		nd := p.Nodes[i]
+		t := &DTree{Idx: i, Fast: nd.Flag&ntMask == ntFastOp}
+		typ := nd.Flag & ntMask
+		if typ == ntConstant || typ == ntVariable {
+			t.S = &Src{Leaf: leafText(nd)}
+			return t, nil
+		}
+		ks := kids[i]
+		if typ == ntCond {
+			if nd.Val.K != "kw" {
+				return nil, fmt.Errorf("fi node %d used as a tree node", i)
+			}
+			if len(ks) != 4 {
+				return nil, fmt.Errorf("if node %d has %d children", i, len(ks))
+			}
+			t.FiIdx = ks[2]
+			ks = []int{ks[0], ks[1], ks[3]}
+		}
+		t.S = &Src{Op: nd.Val.S}
+		for _, k := range ks {
+			kt, err := rec(k, depth+1)
+			if err != nil {
+				return nil, err
+			}
+			kt.Inlined = t.Fast
+			t.Kids = append(t.Kids, kt)
+			t.S.Kids = append(t.S.Kids, kt.S)
+		}
+		return t, nil
+	}
+	return rec(root, 0)
+}
+
+func leafText(nd XNode) string {
+	switch nd.Val.K {
+	case "bool":
+		return fmt.Sprint(nd.Val.B)
+	case "int":
+		return fmt.Sprint(nd.Val.I)
+	case "str":
+		if nd.Flag&ntMask == ntVariable {
+			return nd.Val.S
+		}
+		return `"` + nd.Val.S + `"`
+	case "ilist":
+		var p []string
+		for _, x := range nd.Val.IL {
+			p = append(p, fmt.Sprint(x))
+		}
+		return "(" + strings.Join(p, " ") + ")"
+	case "slist":
+		var p []string
+		for _, x := range nd.Val.SL {
+			p = append(p, `"`+x+`"`)
+		}
+		return "(" + strings.Join(p, " ") + ")"
+	}
+	return "<" + nd.Val.K + ">"
+}
+
+// Annotate matches the tree parsed from the Dump text with the tree of the
+// program table and copies the fast marks; an error means that the Dump text
+// does not describe the program.
+func Annotate(d *Src, pt *DTree) (*DTree, error) {
+	if d.IsLeaf() != pt.S.IsLeaf() {
+		return nil, fmt.Errorf("dump %s vs program %s", d, pt.S)
+	}
+	if d.IsLeaf() {
+		// constants of the ConstantMap are printed by value
+		a, b := DecodeLeaf(d.Leaf, nil), DecodeLeaf(pt.S.Leaf, nil)
+		if fmt.Sprint(a) != fmt.Sprint(b) {
+			return nil, fmt.Errorf("dump leaf %s vs program leaf %s", d.Leaf, pt.S.Leaf)
+		}
+		return &DTree{S: d, Idx: pt.Idx, Inlined: pt.Inlined}, nil
+	}
+	if d.Op != pt.S.Op || len(d.Kids) != len(pt.Kids) {
+		return nil, fmt.Errorf("dump %s vs program %s", d, pt.S)
+	}
+	t := &DTree{S: d, Fast: pt.Fast, Idx: pt.Idx, FiIdx: pt.FiIdx}
+	for i := range d.Kids {
+		k, err := Annotate(d.Kids[i], pt.Kids[i])
+		if err != nil {
+			return nil, err
+		}
+		t.Kids = append(t.Kids, k)
+	}
+	return t, nil
+}
+
+// PlainTree wraps a source tree without fast marks.
+func PlainTree(s *Src) *DTree {
+	t := &DTree{S: s, Idx: -1}
+	for _, k := range s.Kids {
+		t.Kids = append(t.Kids, PlainTree(k))
+	}
+	return t
 }
